@@ -185,6 +185,38 @@ Section Sub.
   Theorem plain_whole_instance (j : nat) (h : bool) (w : S) (parts : list S) :
     item_lik lik (IPlain j h) (w, parts) = lik j w.
   Proof. reflexivity. Qed.
+
+  (* the answers of the members of an indexed collection: analysis k on sub-instance k *)
+  Lemma indexed_answers (w : S) : forall (its : list item) (pre parts : list S),
+    length parts = length its ->
+    map (fun it => item_lik lik it (w, pre ++ parts)) (reindex_from (length pre) its)
+    = map (fun p => lik (fst p) (snd p)) (combine (map item_id its) parts).
+  Proof.
+    induction its as [|it its IH]; intros pre parts L; [reflexivity|].
+    destruct parts as [|s parts]; [discriminate|]. simpl in L.
+    simpl. f_equal.
+    - rewrite nth_error_app2 by lia. rewrite Nat.sub_diag. reflexivity.
+    - specialize (IH (pre ++ [s]) parts ltac:(lia)). rewrite <- app_assoc, app_length in IH. simpl in IH.
+      rewrite Nat.add_1_r in IH. exact IH.
+  Qed.
+
+  Lemma spec_sum_answers {A1 X1 A2 X2} (ev1 : A1 -> X1 -> res) (ev2 : A2 -> X2 -> res) l1 x1 l2 x2 :
+    map (fun a => ev1 a x1) l1 = map (fun a => ev2 a x2) l2 -> spec_sum ev1 l1 x1 = spec_sum ev2 l2 x2.
+  Proof.
+    intro H. unfold spec_sum. rewrite <- (exc_vals ev1), <- (exc_vals ev2), <- (sum_vals ev1), <- (sum_vals ev2), H.
+    reflexivity.
+  Qed.
+
+  (* the likelihood of an indexed collection (free parameters / own models) is the sum of each
+     analysis' likelihood on its own sub-instance *)
+  Theorem indexed_sum (its : list item) (w : S) (parts : list S) :
+    length parts = length its ->
+    serial (item_lik lik) (reindex_from 0 its) (w, parts)
+    = spec_sum (fun (p : nat * S) (_ : unit) => lik (fst p) (snd p)) (combine (map item_id its) parts) tt.
+  Proof.
+    intro L. rewrite serial_spec. apply spec_sum_answers.
+    exact (indexed_answers w its [] parts L).
+  Qed.
 End Sub.
 
 (* ---------- child results and folders ---------- *)
